@@ -22,6 +22,25 @@ PROPS = {
         assumptions=["repeated plain attribute names are outside the domain (only class/style/listeners/spreads repeat)",
                      "class strings are compared as token lists, listener lists as sets, a falsy listener equals no listener"],
     ),
+    "C03": dict(
+        mc=[dict(module="MC_C03")], judge="Judge_C03", want=["js"],
+        rule="full product of component host (bound, unbound, member) x 27 child shapes (none; bound/unbound identifier and "
+             "call each with 5 runtime value kinds; arrow; function; object literal; text; element; member; literal; mixed; "
+             "spread; several) x v-slots form (absent, identifier, object literal) x enableObjectSlots x optimize x "
+             "enclosing context; every function slot is invoked twice by the runtime observer",
+        exhaustive=dict(quick=True, thorough=True),
+        assumptions=["v-slots beside a pass-through child: the pass-through value alone is accepted (DESIGN 6.0)",
+                     "v-slots beside a single object-literal child: merged or the child alone are both accepted"],
+    ),
+    "C04": dict(
+        mc=[dict(module="MC_C04")], judge="Judge_C04", want=["js"],
+        rule="directive spellings (v-kebab, vCamel, multi-word, v-x:arg, v-show/vShow) x 0..2 _modifier suffixes x value "
+             "shapes (expr, call, string literal, absent, [v], [v,arg], [v,'lit'], [v,[mods]], [v,[]], [v,arg,[mods]]) x element/"
+             "component host x co-occurring attribute/ref/class/v-html/v-text; thorough adds ordered pairs of directives",
+        exhaustive=dict(quick=True, thorough=True),
+        assumptions=["a directive with no value: any value accepted, the binding (name, arg, modifiers) is still checked",
+                     "argument `undefined` equals no argument; `_mod` suffixes together with an array modifier list are not generated"],
+    ),
     "C02": dict(
         mc=[dict(module="MC_C02")], judge="Judge_C02", want=["js"],
         rule="TLC enumerates every JSX-text string over the symbol alphabet up to the length bound in every "
